@@ -2,9 +2,13 @@
 package c15
 
 import (
+	"bytes"
 	"context"
 	"errors"
 	"fmt"
+	"io"
+	"net"
+	nethttp "net/http"
 	"regexp"
 	"strings"
 	"sync"
@@ -16,6 +20,7 @@ import (
 	"github.com/hprose/hprose-golang/v3/rpc/core"
 	"github.com/hprose/hprose-golang/v3/rpc/mock"
 	"verif/internal/h"
+	"verif/internal/peer"
 )
 
 // ---- trace ----
@@ -316,11 +321,10 @@ func (s *sys) check(c *h.Case, ops []string, sig string) bool {
 }
 
 func TestCheck(t *testing.T) {
-	mock.RegisterHandler()
-	mock.RegisterTransport()
+	peer.Register()
 	r := h.Start(t, "C15")
 	defer r.Finish()
-	r.Meta("rule", "a real Service and Client over the mock transport; handlers (4 invoke functions, 4 IO functions, two two-sided plugin types, an invoke-only and an IO-only plugin type: all with distinct code) record enter/exit per call id and append their id to the result on the way back. Exhaustive: every sequence of length <= 5 of Use/Unuse over 3 handlers for each of the four managers (client invoke, client IO, service invoke, service IO) and for two-sided plugins on client and service, a call after every operation compared with a list model (append on Use, remove all equal on Unuse, no-op for absent), including repeated, absent and already removed handlers and short-circuiting handlers; seeded random sequences of length <= 40 over the whole pool on both sides at once; concurrent histories (2 mutators, 4 callers) per manager checked with porcupine against the list model, every trace checked for onion nesting; the race detector watches plugin_manager.go. distinct_nontrivial = distinct operation sequences with a non-empty chain at the probe call Added: two distinct plugin objects with equal contents; inner handlers that return a response (or results) together with an error, whose pair every outer handler must be handed.")
+	r.Meta("rule", "a real Service and Client over the mock transport; handlers (4 invoke functions, 4 IO functions, two two-sided plugin types, an invoke-only and an IO-only plugin type: all with distinct code) record enter/exit per call id and append their id to the result on the way back. Exhaustive: every sequence of length <= 5 of Use/Unuse over 3 handlers for each of the four managers (client invoke, client IO, service invoke, service IO) and for two-sided plugins on client and service, a call after every operation compared with a list model (append on Use, remove all equal on Unuse, no-op for absent), including repeated, absent and already removed handlers and short-circuiting handlers; seeded random sequences of length <= 40 over the whole pool on both sides at once; concurrent histories (2 mutators, 4 callers) per manager checked with porcupine against the list model, every trace checked for onion nesting; the race detector watches plugin_manager.go. distinct_nontrivial = distinct operation sequences with a non-empty chain at the probe call Added: two distinct plugin objects with equal contents; inner handlers that return a response (or results) together with an error, whose pair every outer handler must be handed; entry points on all eight transports (library client, HTTP GET for the function list, POST with and without body, raw socket frame): IO and invoke handlers passed once, the peer receives what the outermost IO handler returned.")
 	r.Meta("exhaustive", true)
 	r.Meta("assumptions", []string{
 		"handlers are distinguished by identity of their code (separately declared functions / distinct plugin types); handlers that share code are the subject of a known finding",
@@ -361,6 +365,124 @@ func TestCheck(t *testing.T) {
 	}
 	r.Case("shared-code-handlers", func(c *h.Case) { sharedCode(c) })
 	r.Case("response-together-with-error", func(c *h.Case) { responseAndError(c) })
+	for _, kind := range peer.Kinds {
+		kind := kind
+		r.Case("entry-points/"+kind, func(c *h.Case) { entryPoints(c, kind) })
+	}
+}
+
+// entryPoints: whatever way a request enters a service (the library's client on every transport,
+// an HTTP GET asking for the function list, POSTs with and without a body, a raw socket frame)
+// it passes the service's IO handlers and invoke handlers once each, and the bytes the peer
+// receives are those the outermost IO handler returned.
+func entryPoints(c *h.Case, kind string) {
+	svc := core.NewService()
+	svc.AddFunction(func(s string) string { return "<" + s + ">" }, "wrap")
+	var mu sync.Mutex
+	var ioReq, ioResp [][]byte
+	var invNames []string
+	svc.Use(func(ctx context.Context, request []byte, next core.NextIOHandler) ([]byte, error) {
+		resp, err := next(ctx, request)
+		mu.Lock()
+		ioReq = append(ioReq, append([]byte(nil), request...))
+		ioResp = append(ioResp, append([]byte(nil), resp...))
+		mu.Unlock()
+		return resp, err
+	}, func(ctx context.Context, name string, args []interface{}, next core.NextInvokeHandler) ([]interface{}, error) {
+		mu.Lock()
+		invNames = append(invNames, name)
+		mu.Unlock()
+		return next(ctx, name, args)
+	})
+	srv, err := peer.Start(kind, svc)
+	if err != nil {
+		c.R.Inconclusive("entry-points: cannot start " + kind + ": " + err.Error())
+		return
+	}
+	defer srv.Close()
+	counts := func() (int, int) {
+		mu.Lock()
+		defer mu.Unlock()
+		return len(ioReq), len(invNames)
+	}
+	// expect runs one entry and compares what the handlers observed
+	expect := func(entry string, wantInv int, do func() ([]byte, error)) {
+		io0, inv0 := counts()
+		got, err := do()
+		c.R.Eval(1)
+		rep := map[string]interface{}{"transport": kind, "entry": entry}
+		if err != nil {
+			c.Violation("entry-failed:"+entry, fmt.Sprintf("%s on %s: %v", entry, kind, err), rep)
+			return
+		}
+		io1, inv1 := counts()
+		if io1-io0 != 1 {
+			c.Violation("io-handlers-not-passed-once:"+entry, fmt.Sprintf("%s on %s was answered (%q) but the service's IO handler ran %d times", entry, kind, got, io1-io0), rep)
+			return
+		}
+		if wantInv >= 0 && inv1-inv0 != wantInv {
+			c.Violation("invoke-handlers-not-passed-once:"+entry, fmt.Sprintf("%s on %s: the service's invoke handler ran %d times, expected %d", entry, kind, inv1-inv0, wantInv), rep)
+		}
+		mu.Lock()
+		seen := ioResp[len(ioResp)-1]
+		mu.Unlock()
+		if got != nil && !bytes.Equal(got, seen) {
+			c.Violation("peer-did-not-get-what-the-io-handler-returned:"+entry, fmt.Sprintf("%s on %s: peer received %q, the outermost IO handler returned %q", entry, kind, got, seen), rep)
+		}
+		c.R.Distinct("entry|" + kind + "|" + entry)
+	}
+	client := srv.NewClient()
+	expect("client-call", 1, func() ([]byte, error) {
+		res, err := client.Invoke("wrap", []interface{}{"x"})
+		if err == nil && (len(res) != 1 || fmt.Sprint(res[0]) != "<x>") {
+			err = fmt.Errorf("result %v", res)
+		}
+		return nil, err
+	})
+	call := []byte(`Cs4"wrap"a1{s1"y"}z`)
+	switch kind {
+	case "http", "fasthttp", "ws", "ws-fasthttp":
+		url := "http://" + srv.Addr + "/"
+		hc := &nethttp.Client{Transport: &nethttp.Transport{DisableKeepAlives: true}}
+		fetch := func(method string, body []byte) func() ([]byte, error) {
+			return func() ([]byte, error) {
+				var rd io.Reader
+				if body != nil {
+					rd = bytes.NewReader(body)
+				}
+				req, _ := nethttp.NewRequest(method, url, rd)
+				resp, err := hc.Do(req)
+				if err != nil {
+					return nil, err
+				}
+				defer resp.Body.Close()
+				b, err := io.ReadAll(resp.Body)
+				if err == nil && resp.StatusCode != 200 {
+					err = fmt.Errorf("status %d", resp.StatusCode)
+				}
+				return b, err
+			}
+		}
+		expect("http-get", -1, fetch("GET", nil))
+		expect("http-post-empty", -1, fetch("POST", []byte{}))
+		expect("http-post-function-list", -1, fetch("POST", []byte("z")))
+		expect("http-post-call", 1, fetch("POST", call))
+	case "tcp", "unix":
+		network := kind
+		expect("raw-frame", 1, func() ([]byte, error) {
+			conn, err := net.DialTimeout(network, srv.Addr, 5*time.Second)
+			if err != nil {
+				return nil, err
+			}
+			defer conn.Close()
+			conn.SetDeadline(time.Now().Add(20 * time.Second))
+			if _, err := conn.Write(peer.TCPFrame(7, call, false)); err != nil {
+				return nil, err
+			}
+			_, body, _, err := peer.ReadTCPFrame(conn)
+			return body, err
+		})
+	}
 }
 
 func exhaustive(c *h.Case, name string, onClient bool, items []item, first, maxLen int) {
